@@ -10,6 +10,7 @@ import sys
 from copy import deepcopy
 import argparse
 import json
+from io import StringIO
 from os import access, R_OK, remove
 from os.path import isfile, exists
 from shutil import copy2
@@ -298,20 +299,11 @@ def write_output_document(
         doc.prepare_for_dump(yaml_editor, args.output)
         dumps.append(doc.data)
 
-    # Save a backup of the overwrite file, if requested; only once the merged
-    # result is known to be ready for writing lest a failure to prepare it
-    # leave a pointless backup file behind.
-    if args.backup:
-        backup_file = args.overwrite + ".bak"
-        log.verbose(
-            "Saving a backup of {} to {}."
-            .format(args.overwrite, backup_file))
-        if exists(backup_file):
-            remove(backup_file)
-        copy2(args.overwrite, backup_file)
-
     if args.output:
-        with open(args.output, 'w', encoding='utf-8') as out_fhnd:
+        # Render the whole output in memory first:  opening the file for
+        # writing truncates it, so a result the dumper cannot represent must
+        # surface before the backup is taken and the file is touched.
+        with StringIO() as out_fhnd:
             if document_is_json:
                 if len(dumps) > 1:
                     for dump in dumps:
@@ -338,6 +330,22 @@ def write_output_document(
                     yaml_editor.dump_all(dumps, out_fhnd)
                 else:
                     yaml_editor.dump(dumps[0], out_fhnd)
+            output_text = out_fhnd.getvalue()
+
+        # Save a backup of the overwrite file, if requested; only once the
+        # merged result is known to be ready for writing lest a failure to
+        # prepare or render it leave a pointless backup file behind.
+        if args.backup:
+            backup_file = args.overwrite + ".bak"
+            log.verbose(
+                "Saving a backup of {} to {}."
+                .format(args.overwrite, backup_file))
+            if exists(backup_file):
+                remove(backup_file)
+            copy2(args.overwrite, backup_file)
+
+        with open(args.output, 'w', encoding='utf-8') as out_file:
+            out_file.write(output_text)
     else:
         if document_is_json:
             if len(dumps) > 1:
